@@ -118,8 +118,12 @@ impl<'a> G<'a> {
                 }
             }
             F::V => {
-                let c = self.r.weighted(&[3, 3, 3, 2, 2, 1, 2, 2, 1]);
+                let c = self.r.weighted(&[3, 3, 3, 2, 2, 1, 2, 2, 1, 1]);
                 match c {
+                    9 => {
+                        let f = self.fault(self.n * self.w);
+                        self.push(Op::abf(OpK::VClone, 0, 0, f));
+                    }
                     7 => {
                         let a = self.r.below(3);
                         let f = self.fault(self.n);
@@ -601,7 +605,11 @@ impl<'a> G<'a> {
                         mf = MF::Flat;
                     }
                 }
-                MF::M => match self.r.weighted(&[4, 4, 2, 2, 2, 2, 2, 2, 2, 2]) {
+                MF::M => match self.r.weighted(&[4, 4, 2, 2, 2, 2, 2, 2, 2, 2, 1]) {
+                    10 => {
+                        let f = self.fault(nm * nm);
+                        self.push(Op::abf(OpK::MClone, 0, 0, f));
+                    }
                     8 => {
                         let a = self.r.below(4);
                         let f = self.fault(nm * nm);
@@ -715,6 +723,6 @@ pub fn gen_plan(seed: u64, run: u64) -> Plan {
     }
     let ops = g.ops;
     // element-shape swarm dimension (drawn last so that the plans of earlier versions keep their shape)
-    let elem = if !is_mat && rng.chance(1, 6) { 1 } else { 0 };
+    let elem = if is_mat { 0 } else { [0, 0, 0, 0, 0, 1, 1, 2][rng.below(8) as usize] };
     Plan { kind, faulty, elem, ops }
 }
